@@ -54,6 +54,7 @@ type Task struct {
 	exiting  bool
 	gid      uint64
 	lastStep int
+	prio     int64
 }
 
 // EnvAction is an environment decision the scheduler can take instead of
@@ -87,6 +88,11 @@ type Config struct {
 	Fair      int  // consecutive default steps before a forced round-robin switch; 0 = 2000
 	Watch     []string // substrings of yield sites whose visits are recorded (Sim.Watched)
 	AutoAdvance time.Duration // simulated time a Run may let pass on its own while a harness task is natively blocked; 0 = 5 s
+	// Strategy 0: every tape entry picks the next thing to run (0 = keep going).
+	// Strategy 1 (PCT-style): tasks carry priorities drawn from the auxiliary PRNG, the runnable
+	// task of highest priority always runs, and a non-zero tape entry demotes the running task
+	// below all others (a priority change point); tape entries >= 8 pick an environment action.
+	Strategy int
 }
 
 // WatchEv is one recorded visit of a watched yield site: the task resumed
@@ -127,6 +133,7 @@ type Sim struct {
 	closed  bool
 	stuckAt string
 	watched []WatchEv
+	lowPrio int64
 }
 
 // Watched returns the recorded visits of watched sites.
@@ -301,6 +308,7 @@ func (s *Sim) Spawn(name string, f func()) *Task {
 func (s *Sim) spawn(name string, daemon bool, f func()) *Task {
 	s.mu.Lock()
 	t := &Task{ID: len(s.tasks), Name: name, State: StNew, Daemon: daemon, wake: make(chan struct{})}
+	t.prio = int64(s.randLocked()>>2) + 1
 	s.tasks = append(s.tasks, t)
 	s.mu.Unlock()
 	go func() {
@@ -615,6 +623,24 @@ func (s *Sim) Run(until func() bool) RunResult {
 				break
 			}
 			s.nextChoice() // keep tape aligned: one choice per decision
+		} else if s.cfg.Strategy == 1 {
+			stride = 0
+			v := s.nextChoice()
+			if v >= 8 && len(envs) > 0 {
+				pickEnv = envs[(v-8)%len(envs)]
+			} else {
+				if (v != 0 || s.runLen >= s.cfg.Fair) && s.cur != nil {
+					s.lowPrio--
+					s.cur.prio = s.lowPrio // change point (or fairness): the running task falls behind everybody
+				}
+				best := runnable[0]
+				for _, t := range runnable[1:] {
+					if t.prio > best.prio {
+						best = t
+					}
+				}
+				pickTask = best
+			}
 		} else {
 			stride = 0
 			v := s.nextChoice()
